@@ -122,6 +122,7 @@ func runCLIOnce(cfg zzsim.Config, s *scn.Scenario, root string, args []string, w
 	zzsimos.Reset(args, workers)
 	zzsimflag.Reset(args, zzsimos.Stderr)
 	zzsimflag.ParseFailed = func(error) { zzsimos.Exit(2) }
+	zzsimos.ResetProgram() // the program's package-level variables as a fresh process has them
 	zzsim.PanicHandler = func(task int, r interface{}) {
 		mu.Lock()
 		if o.crash == "" {
@@ -264,6 +265,7 @@ func runC11CLI(s *scn.Scenario, res *scn.Result) {
 	}
 	if !allNormal {
 		res.Probes["cli_abnormal_end_alone"]++
+		res.Trace = append(res.Trace, "not judged further: "+abnormal+"; the whole tree: "+got.endText())
 		if got.normalEnd() {
 			add("O1-equals-alone", "cli-end", "the program ends normally on the whole tree although "+abnormal)
 		}
